@@ -27,17 +27,18 @@ SweepOK(base, max, rs) == /\ \A i \in DOMAIN rs : rs[i] >= base /\ rs[i] <= max
                           /\ \A i \in DOMAIN rs : i > 1 => rs[i] >= rs[i-1]
 
 \* ---------------------------------------------------------------- server-timing
-EntryClasses == {"good", "good2", "bad", "other", "neg"}
+EntryClasses == {"good", "good2", "bad", "other", "neg", "short", "short2", "alike", "empty", "prefixonly", "spaces"}
 Lists == {<<>>} \cup {<<a>> : a \in EntryClasses} \cup {<<a, b>> : a \in EntryClasses, b \in EntryClasses}
 TimingVecs == {[kind |-> "timing", hdr |-> h, trl |-> t] : h \in Lists, t \in Lists}
 
-IsGfe(c) == c \in {"good", "good2", "bad", "neg"}
+\* only entries that start with the full prefix "gfet4t7; dur=" are gfet4t7 entries; look-alikes and truncated entries are skipped
+IsGfe(c) == c \in {"good", "good2", "bad", "neg", "prefixonly", "spaces"}
 Millis(c) == CASE c = "good" -> 123 [] c = "good2" -> 7 [] c = "neg" -> -5 [] OTHER -> 0
 FirstGfe(l) == LET S == {i \in DOMAIN l : IsGfe(l[i])} IN IF S = {} THEN 0 ELSE CHOOSE i \in S : \A j \in S : i <= j
 Timing(h, t) ==
   LET src == IF h # <<>> THEN h ELSE t
       k == FirstGfe(src)
-  IN IF src = <<>> \/ k = 0 \/ src[k] = "bad" THEN [ok |-> FALSE, ms |-> 0] ELSE [ok |-> TRUE, ms |-> Millis(src[k])]
+  IN IF src = <<>> \/ k = 0 \/ src[k] \in {"bad", "prefixonly", "spaces"} THEN [ok |-> FALSE, ms |-> 0] ELSE [ok |-> TRUE, ms |-> Millis(src[k])]
 
 \* ---------------------------------------------------------------- flags
 Chars == {"a", "Z", "7", "-", "_", ".", ":", "/", "!", " "}
